@@ -1,9 +1,10 @@
 package props
 
 import (
-	"strings"
 	"go/token"
 	"go/types"
+	"sort"
+	"strings"
 
 	"golang.org/x/tools/go/ssa"
 
@@ -49,6 +50,8 @@ func runC11(c *Ctx) {
 	}
 
 	ruleCloseMarks(c, p, "C11.close-marks")
+	rulePoolSyncUse(c, p, "C11.sync-use")
+	rulePoolLimits(c, p, "C11.limits")
 	if roles := resolveDo(c, p); roles != nil {
 		ruleWatch(c, p, roles, "C11")
 	}
@@ -230,11 +233,15 @@ func runC11(c *Ctx) {
 			return
 		}
 		n := 0
-		for _, name := range []string{"Do", "Ping"} {
-			fn := p.Method(core.PkgPool, "Pool", name)
-			if fn == nil {
-				continue
+		// Pool.Do / Pool.Ping, or the helper they share: whoever calls Pool.Acquire inside the package
+		var holders []*ssa.Function
+		for _, fn := range p.Funcs() {
+			if pkgOf(fn) != nil && pkgOf(fn).Path() == core.PkgPool && fn.Blocks != nil {
+				holders = append(holders, fn)
 			}
+		}
+		sort.Slice(holders, func(i, j int) bool { return holders[i].Pos() < holders[j].Pos() })
+		for _, fn := range holders {
 			acq := core.FindCalls(fn, func(f *types.Func) bool { return core.IsMethod(f, core.PkgPool, "Pool", "Acquire") })
 			for _, a := range acq {
 				n++
@@ -296,7 +303,7 @@ func runC11(c *Ctx) {
 				}
 			}
 		}
-		c.R.Floor(rule, cfg, n, 3)
+		c.R.Floor(rule, cfg, n, 2)
 	}()
 
 	// ---- C11.health
@@ -800,4 +807,108 @@ func ruleConnChannel(c *Ctx, p *core.Program, rule string) {
 	if n == 0 {
 		c.R.Ok(rule, "ch+chpool", cfg, "", "no channel send carries a connection")
 	}
+}
+
+// rulePoolSyncUse (C11): a handle's connection is used only while the holder is inside the call.
+func rulePoolSyncUse(c *Ctx, p *core.Program, rule string) {
+	c.R.Rule(rule, "no goroutine started in package chpool reaches a method of ch.Client that uses the connection (Do, Ping): the handle's Do and Ping run the query on the caller's goroutine and return when it has ended, so a Release that follows them finds the connection idle or closed - a Do that returns at ctx.Done() while the query still runs in a goroutine lets Release put a connection back that is being read and about to be closed, and the next holder shares it")
+	cfg := p.Cfg.Name
+	usesConn := func(f *types.Func) bool {
+		return core.IsMethod(f, core.PkgCh, "Client", "Do") || core.IsMethod(f, core.PkgCh, "Client", "Ping")
+	}
+	n := 0
+	for _, fn := range p.Funcs() {
+		if pkgOf(fn) == nil || pkgOf(fn).Path() != core.PkgPool || fn.Blocks == nil {
+			continue
+		}
+		for _, b := range fn.Blocks {
+			for _, in := range b.Instrs {
+				g, ok := in.(*ssa.Go)
+				if !ok {
+					continue
+				}
+				n++
+				key := core.FuncName(fn) + sprintf("/go#%d", n)
+				var body *ssa.Function
+				switch v := g.Call.Value.(type) {
+				case *ssa.MakeClosure:
+					body, _ = v.Fn.(*ssa.Function)
+				case *ssa.Function:
+					body = v
+				}
+				if body == nil {
+					c.R.Unk(rule, key, cfg, p.Pos(g.Pos()), "goroutine body not resolved")
+					continue
+				}
+				direct := false
+				if f := core.CalleeFunc(g); f != nil && usesConn(f) {
+					direct = true
+				}
+				if direct || core.ReachesCallee(body, usesConn, 3) {
+					c.R.Bad(rule, key, cfg, p.Pos(g.Pos()), "a goroutine of the pool runs a query on a client's connection: the call that started it can return (and the handle be released) while the connection is still in use")
+				} else {
+					c.R.Ok(rule, key, cfg, p.Pos(g.Pos()), "does not use a client's connection through Do or Ping")
+				}
+			}
+		}
+	}
+	c.R.Count("goroutines started in package chpool", n)
+	c.R.Floor(rule, cfg, n, 2)
+}
+
+// rulePoolLimits (C11): the defaults never override a configured limit.
+func rulePoolLimits(c *Ctx, p *core.Program, rule string) {
+	c.R.Rule(rule, "chpool.Options.setDefaults assigns a field only where that field is zero (the store lies behind the true edge of a test `field == 0` of the same field): the configured MaxConns is the bound on open connections the property promises, a default that raises it to MinConns lets a pool configured with MaxConns 2 open four")
+	cfg := p.Cfg.Name
+	fn := p.Method(core.PkgPool, "Options", "setDefaults")
+	if !c.must(p, "chpool.Options.setDefaults", fn != nil) {
+		return
+	}
+	n := 0
+	for _, b := range fn.Blocks {
+		for _, in := range b.Instrs {
+			st, ok := in.(*ssa.Store)
+			if !ok {
+				continue
+			}
+			fa, ok := st.Addr.(*ssa.FieldAddr)
+			if !ok || !core.IsNamed(fa.X.Type(), core.PkgPool, "Options") {
+				continue
+			}
+			fname := fieldNameOnly(fa.X.Type(), fa.Field)
+			n++
+			key := "setDefaults/" + fname
+			zero := core.CondEdges(fn, true, func(cond ssa.Value) (bool, bool) {
+				v, pol := core.StripNot(cond)
+				bo, ok := v.(*ssa.BinOp)
+				if !ok || (bo.Op != token.EQL && bo.Op != token.NEQ) {
+					return false, false
+				}
+				x, y := bo.X, bo.Y
+				isZero := func(v ssa.Value) bool {
+					if k, ok := core.ConstInt(v); ok && k == 0 {
+						return true
+					}
+					return core.IsNilConst(v)
+				}
+				if isZero(x) {
+					x, y = y, x
+				}
+				if !isZero(y) || core.FieldOrigin(x, 0) != "Options."+fname {
+					return false, false
+				}
+				if bo.Op == token.NEQ {
+					pol = !pol
+				}
+				return pol, true
+			})
+			if len(zero) > 0 && core.OnlyViaEdges(fn, st, zero) {
+				c.R.Ok(rule, key, cfg, p.Pos(st.Pos()), "assigned only when unset")
+			} else {
+				c.R.Bad(rule, key, cfg, p.Pos(st.Pos()), sprintf("Options.%s is assigned on a path where it was configured (non-zero): the caller's limit is replaced", fname))
+			}
+		}
+	}
+	c.R.Count("defaults assigned in chpool.Options.setDefaults", n)
+	c.R.Floor(rule, cfg, n, 3)
 }
